@@ -20,6 +20,11 @@ type linRecorder struct {
 	waiting map[uint64][]*linOp
 	done    []*linOp
 	commit  map[int]uint64 // tag -> first committed index
+	// issues counts how often a read context was issued (at any node); a
+	// context that the client re-used is not part of the history: an answer
+	// to an earlier use of it (delayed in the network, possibly across a
+	// restart of the node) is indistinguishable from an answer to the later one
+	issues map[int]int
 }
 
 type linOp struct {
@@ -36,7 +41,7 @@ type linOp struct {
 }
 
 func newLinRecorder(nkeys int) *linRecorder {
-	return &linRecorder{nkeys: nkeys, writes: map[int]*linOp{}, reads: map[uint64]map[int]*linOp{}, waiting: map[uint64][]*linOp{}, commit: map[int]uint64{}}
+	return &linRecorder{nkeys: nkeys, writes: map[int]*linOp{}, reads: map[uint64]map[int]*linOp{}, waiting: map[uint64][]*linOp{}, commit: map[int]uint64{}, issues: map[int]int{}}
 }
 
 func (l *linRecorder) onWriteInvoke(node uint64, tags []int, step, nkeys int) {
@@ -85,6 +90,16 @@ func (l *linRecorder) onCrash(node uint64) {
 }
 
 func (l *linRecorder) onReadIssue(node uint64, ctx, step int) {
+	l.issues[ctx]++
+	if l.issues[ctx] > 1 {
+		// re-used context: withdraw whatever was recorded under it
+		for _, m := range l.reads {
+			if op := m[ctx]; op != nil {
+				op.dead = true
+			}
+		}
+		return
+	}
 	if l.reads[node] == nil {
 		l.reads[node] = map[int]*linOp{}
 	}
@@ -100,7 +115,7 @@ func (l *linRecorder) onReadIssue(node uint64, ctx, step int) {
 
 func (l *linRecorder) onReadState(n *Node, ctx int, index uint64, step int) {
 	op := l.reads[n.id][ctx]
-	if op == nil || op.hasIndex || op.ret >= 0 {
+	if op == nil || op.hasIndex || op.ret >= 0 || op.dead {
 		return
 	}
 	op.rindex = index
@@ -203,6 +218,9 @@ func (l *linRecorder) check(finalStep int, timeout time.Duration) (porcupine.Che
 		return reads[i].node < reads[j].node
 	})
 	for _, r := range reads {
+		if r.dead {
+			continue
+		}
 		ops = append(ops, porcupine.Operation{ClientId: id, Input: regInput{false, r.key, 0}, Call: int64(r.call) * 2, Output: r.val, Return: int64(r.ret)*2 + 1})
 		id++
 	}
